@@ -256,9 +256,9 @@ C35_OneProbe ==
                Cardinality({x \in 1..Len(tpls[i].items) : tpls[i].items[x].name = probe})
                    = IF i = NumTpls(wraps) THEN 1 ELSE 0
 
-\* tags are well nested in every template (opens and closes match)
-C35_AllTagsScanned ==
-    phase = "done" =>
-        Len(tokLines) = Cardinality({<<i, x>> \in (1..Len(tpls)) \X (1..30) :
-                                         x <= Len(tpls[i].items) /\ tpls[i].items[x].k = "tag"})
+\* the scan visits every tag of every template exactly once
+TagCount(items) == Len(SelectSeq(items, LAMBDA it : it.k = "tag"))
+RECURSIVE TagTotal(_)
+TagTotal(ts) == IF ts = <<>> THEN 0 ELSE TagCount(Head(ts).items) + TagTotal(Tail(ts))
+C35_AllTagsScanned == phase = "done" => Len(tokLines) = TagTotal(tpls)
 =============================================================================
